@@ -31,6 +31,7 @@ import (
 	"verifsim/harness"
 	"verifsim/sched"
 	"verifsim/simio"
+	"verifsim/stdpkgs"
 
 	"github.com/open2b/scriggo"
 	"github.com/open2b/scriggo/native"
@@ -321,6 +322,10 @@ func exec(r *harness.Run) *harness.Violation {
 		}
 	case 0:
 		src = corpus[s.N(len(corpus))]
+		if src.program {
+			// the standard library subset the corpus programs import
+			opts.Packages = stdpkgs.Packages
+		}
 	case 1:
 		set := tmpl.Gen(s, tmpl.Options{Feature: r.Feature, MaxPieces: 5})
 		src = source{name: "generated template set", files: set.FilesBytes(), root: set.Main}
@@ -425,8 +430,17 @@ func exec(r *harness.Run) *harness.Violation {
 		r.Count("fault.io-"+rec.Fault.Kind, 1)
 	}
 	r.Count(fmt.Sprintf("capacity.%d", capacity), 1)
+	// Reach per kind of source: a kind that never builds is a blind spot of
+	// the workload (it happened: programs could not be built at all while the
+	// simulated file system did not list directories).
+	kind := src.name
+	if strings.Contains(kind, "/") || strings.HasSuffix(kind, ".go") || strings.HasSuffix(kind, ".html") || strings.HasSuffix(kind, ".md") {
+		kind = map[bool]string{true: "corpus program", false: "corpus template"}[src.program]
+	}
+	r.Count("source."+kind, 1)
 	if o.built {
 		r.Count("probe.build_succeeded", 1)
+		r.Count("built."+kind, 1)
 	}
 	if o.class != "" {
 		return harness.Violf(o.class, "%s: %s", ctx, o.detail)
